@@ -437,7 +437,7 @@ func c15R3(c *Ctx) {
 			n++
 			// the path argument is append(pathInCurrentNode, <key or index>)
 			args := callArgs(call.Common())
-			p := args[3]
+			p := argOfType(args, isStringSlice)
 			isAppend := false
 			if ap, ok := p.(*ssa.Call); ok && isBuiltinCall(ap, "append") {
 				if _, isParam := ap.Call.Args[0].(*ssa.Parameter); isParam {
@@ -480,23 +480,39 @@ func c15Shared(c *Ctx) {
 func c15R7(c *Ctx) {
 	const rule = "C15.R7"
 	c.explain("C15.R7 in the stage-failure handler (the function stored as onStepStageFailure): on every path from entry to the notification both markOutputsUnresolvable and markStageNodeUnresolvable are called for the failed stage")
-	hf := c.field(pkgWorkflow, "stageChangeHandler", "onStepStageFailure")
 	markOut := c.Fn("(*workflow.loopState).markOutputsUnresolvable")
 	markStage := c.Fn("(*workflow.loopState).markStageNodeUnresolvable")
 	notify := c.Fn("(*workflow.loopState).notifySteps")
-	if hf == nil || markOut == nil || markStage == nil || notify == nil {
+	if markOut == nil || markStage == nil || notify == nil {
 		return
 	}
-	n := 0
-	for _, h := range c.CG().fieldFuncs[hf] {
-		n++
-		key := "stage-failure-marks@" + c.fnName(h)
-		calls := func(f *ssa.Function) func(ssa.Instruction) bool {
-			return func(in ssa.Instruction) bool {
-				call, ok := in.(*ssa.Call)
-				return ok && call.Common().StaticCallee() == f
-			}
+	calls := func(f *ssa.Function) func(ssa.Instruction) bool {
+		return func(in ssa.Instruction) bool {
+			call, ok := in.(*ssa.Call)
+			return ok && call.Common().StaticCallee() == f
 		}
+	}
+	n := 0
+	// the run loop's implementation(s) of StageChangeHandler.OnStepStageFailure, followed into the closure or method that
+	// does the work (whether the handler is a struct of closures or a concrete type)
+	for _, impl := range c.ifaceMethodImpls(pkgStep, "StageChangeHandler", "OnStepStageFailure") {
+		if pkgPathOf(impl) != pkgWorkflow {
+			continue
+		}
+		var h *ssa.Function
+		for _, g := range c.logicalBody(impl) {
+			eachInstr(g, func(r instrRef) {
+				if calls(notify)(r.I) || calls(markStage)(r.I) || calls(markOut)(r.I) {
+					h = g
+				}
+			})
+		}
+		n++
+		if h == nil {
+			c.bad(rule, "stage-failure-marks@"+c.fnName(impl), c.pos(impl.Pos()), "the stage-failure handler neither marks the failed stage's nodes unresolvable nor notifies")
+			continue
+		}
+		key := "stage-failure-marks@" + c.fnName(h)
 		end := func(in ssa.Instruction) bool { return isReturn(in) || calls(notify)(in) }
 		p1 := c.findPath(h, nil, calls(markOut), end)
 		p2 := c.findPath(h, nil, calls(markStage), end)
